@@ -180,7 +180,7 @@ def run(chk, F, tier):
 
     # ---- add: every field of self becomes self.F + rhs.F; array fields element by element with the same position
     b = F.body(IMPL + "::add")
-    RHS = ("deref", ("arg", 2, "rhs"))
+    RHS = ("deref", ("arg", 2, "arg2"))
     seen_add = set()
     adt = [F.adts[STATS]] if STATS in F.adts else []
 
@@ -366,7 +366,7 @@ def run(chk, F, tier):
     b = F.one(name="add_assign", trait_is="std::ops::AddAssign", impl_self=STATS + "<")
     ps = [p for p in mir.walk(b) if p.end[0] == "return"]
     c = ps[0].calls() if len(ps) == 1 else []
-    ok = len(c) == 1 and c[0][1] == IMPL + "::add" and is_arg(peel_ref(c[0][2][0]), 1) and c[0][2][1] == ("ref", ("arg", 2, "rhs"))
+    ok = len(c) == 1 and c[0][1] == IMPL + "::add" and is_arg(peel_ref(c[0][2][0]), 1) and c[0][2][1] == ("ref", ("arg", 2, "arg2"))
     chk.expect("S4.merge", "AddAssign", ok, "AddAssign::add_assign is not self.add(&rhs)")
     b = F.one(name="add", trait_is="std::ops::Add", impl_self=STATS + "<")
     ps = [p for p in mir.walk(b) if p.end[0] == "return"]
@@ -409,7 +409,7 @@ def run(chk, F, tier):
             if len(ups) != 1 or len(fwd) != 1:
                 probs.append("%d updates / %d forwarded calls on a successful path" % (len(ups), len(fwd)))
                 continue
-            want = ("okval", fwd[0][3]) if nm == "read" else ("arg", 3, "value")
+            want = ("okval", fwd[0][3]) if nm == "read" else ("arg", 3, "arg3")
             if ups[0][2][1] != want or not ups[0][1].endswith("::update"):
                 probs.append("updates with %s via %s, expected update(%s)" % (mir.fmt(ups[0][2][1]), ups[0][1].split("::")[-1], mir.fmt(want)))
             # receiver comes from Mutex::lock(&self.stats) -> unwrap -> deref_mut
